@@ -14,6 +14,7 @@ import (
 
 	"github.com/failsafe-go/failsafe-go"
 	"github.com/failsafe-go/failsafe-go/fallback"
+	"github.com/failsafe-go/failsafe-go/hedgepolicy"
 	"github.com/failsafe-go/failsafe-go/retrypolicy"
 	"github.com/failsafe-go/failsafe-go/timeout"
 
@@ -179,6 +180,146 @@ func TestTimeoutWhenAlreadyCancelled(t *testing.T) {
 		}
 		b, _ := json.Marshal(sc)
 		st.Case(string(b), true, "arm="+arm, "cancel-at="+sc.CancelAt)
+		st.Sample(string(b), func() any { return sc })
+	})
+}
+
+// TestOuterTimeoutStaysSilent: the first arm of the exclusive outcome — "the inner result is returned unchanged, the timeout
+// listener is never called and the execution is not cancelled by the Timeout" — also when the inner result happens to be a
+// timeout error: an inner Timeout that fired, or a function that returns an error wrapping ErrExceeded. The outer Timeout
+// (one hour) did not elapse: its listener stays silent and the inner result passes through.
+func TestOuterTimeoutStaysSilent(t *testing.T) {
+	const test = "TestOuterTimeoutStaysSilent"
+	st := harness.NewStats(test)
+	defer st.Flush()
+	rapid.Check(t, func(t *rapid.T) {
+		type scen struct {
+			Inner   string `json:"inner"`   // timeout (an inner Timeout fires) | fn-wrapped (the function returns an error wrapping ErrExceeded) | fn-bare (it returns ErrExceeded itself)
+			Between string `json:"between"` // none | retry | fallback (a policy between the two, which handles nothing)
+			LimitUs int    `json:"limit_us"`
+			Async   bool   `json:"async"`
+		}
+		sc := scen{Inner: rapid.SampledFrom([]string{"timeout", "fn-wrapped", "fn-bare"}).Draw(t, "inner"), Between: rapid.SampledFrom([]string{"none", "retry", "fallback"}).Draw(t, "between"),
+			LimitUs: rapid.SampledFrom([]int{500, 2000}).Draw(t, "limitUs"), Async: rapid.Bool().Draw(t, "async")}
+		var outerL, innerL atomic.Int32
+		outer := timeout.Builder[int](time.Hour).OnTimeoutExceeded(func(failsafe.ExecutionDoneEvent[int]) { outerL.Add(1) }).Build()
+		pols := []failsafe.Policy[int]{outer}
+		never := errors.New("never")
+		switch sc.Between {
+		case "retry":
+			pols = append(pols, retrypolicy.Builder[int]().HandleErrors(never).Build())
+		case "fallback":
+			pols = append(pols, fallback.BuilderWithResult[int](-1).HandleErrors(never).Build())
+		}
+		var fn func(failsafe.Execution[int]) (int, error)
+		switch sc.Inner {
+		case "timeout":
+			pols = append(pols, timeout.Builder[int](time.Duration(sc.LimitUs)*time.Microsecond).OnTimeoutExceeded(func(failsafe.ExecutionDoneEvent[int]) { innerL.Add(1) }).Build())
+			fn = func(e failsafe.Execution[int]) (int, error) {
+				select {
+				case <-e.Canceled():
+				case <-harness.After(30 * time.Second):
+				}
+				return 0, errIn
+			}
+		case "fn-wrapped":
+			fn = func(failsafe.Execution[int]) (int, error) {
+				return 3, fmt.Errorf("downstream: %w", timeout.ErrExceeded)
+			}
+		default:
+			fn = func(failsafe.Execution[int]) (int, error) { return 3, timeout.ErrExceeded }
+		}
+		ex := failsafe.NewExecutor[int](pols...)
+		var err error
+		if sc.Async {
+			_, err = ex.GetWithExecutionAsync(fn).Get()
+		} else {
+			_, err = ex.GetWithExecution(fn)
+		}
+		if !errors.Is(err, timeout.ErrExceeded) {
+			harness.Violation(t, prop, test, "inner-result-changed", sc, "%+v: returned %v; the inner result was a timeout error and must pass through unchanged", sc, err)
+		}
+		time.Sleep(300 * time.Microsecond)
+		if got := outerL.Load(); got != 0 {
+			harness.Violation(t, prop, test, "listener-count", sc, "%+v: the outer Timeout (1h) did not elapse, but its OnTimeoutExceeded listener was called %d times", sc, got)
+		}
+		if sc.Inner == "timeout" {
+			w := harness.Wait(20 * time.Second)
+			for innerL.Load() < 1 && !w.Expired() {
+				time.Sleep(100 * time.Microsecond)
+			}
+			if got := innerL.Load(); got != 1 {
+				harness.Violation(t, prop, test, "listener-count", sc, "%+v: the inner Timeout fired once, its listener was called %d times", sc, got)
+			}
+		}
+		b, _ := json.Marshal(sc)
+		st.Case(string(b), true, "inner="+sc.Inner)
+		st.Sample(string(b), func() any { return sc })
+	})
+}
+
+// TestHedgedRetryTimeout: Hedge(Retry(Timeout(fn))): the limit applies afresh to each attempt on every branch, and a
+// Timeout cancels what it encloses, not the retry policy around it. On both branches the first try blocks and is ended by
+// the Timeout; the hedged branch's second try succeeds (only a success ends the hedging). The hedged branch must therefore
+// have made a second try, and the execution must succeed.
+func TestHedgedRetryTimeout(t *testing.T) {
+	const test = "TestHedgedRetryTimeout"
+	st := harness.NewStats(test)
+	defer st.Flush()
+	rapid.Check(t, func(t *rapid.T) {
+		type scen struct {
+			LimitUs int  `json:"limit_us"`
+			Async   bool `json:"async"`
+			Between bool `json:"fallback_between"` // a fallback (handling nothing) between retry and timeout
+		}
+		sc := scen{LimitUs: rapid.SampledFrom([]int{1000, 3000}).Draw(t, "limitUs"), Async: rapid.Bool().Draw(t, "async"), Between: rapid.Bool().Draw(t, "between")}
+		limit := time.Duration(sc.LimitUs) * time.Microsecond
+		hp := hedgepolicy.BuilderWithDelay[int](100 * time.Microsecond).WithMaxHedges(1).CancelIf(func(_ int, err error) bool { return err == nil }).Build()
+		rp := retrypolicy.Builder[int]().WithMaxRetries(3).Build()
+		pols := []failsafe.Policy[int]{hp, rp}
+		if sc.Between {
+			pols = append(pols, fallback.BuilderWithResult[int](-1).HandleErrors(errors.New("never")).Build())
+		}
+		pols = append(pols, timeout.With[int](limit))
+		var mu sync.Mutex
+		tries := map[bool]int{} // by branch (IsHedge)
+		fn := func(e failsafe.Execution[int]) (int, error) {
+			mu.Lock()
+			tries[e.IsHedge()]++
+			n := tries[e.IsHedge()]
+			mu.Unlock()
+			if e.IsHedge() && n >= 2 {
+				return 9, nil
+			}
+			select {
+			case <-e.Canceled():
+			case <-harness.After(30 * time.Second):
+			}
+			return 0, errIn
+		}
+		ex := failsafe.NewExecutor[int](pols...)
+		var v int
+		var err error
+		if sc.Async {
+			v, err = ex.GetWithExecutionAsync(fn).Get()
+		} else {
+			v, err = ex.GetWithExecution(fn)
+		}
+		mu.Lock()
+		hedgeTries, primaryTries := tries[true], tries[false]
+		mu.Unlock()
+		// (if the hedge never started because the machine stalled past the first limit, the primary alone retries until its
+		// budget ends: nothing to judge)
+		if hedgeTries >= 1 {
+			if hedgeTries < 2 {
+				harness.Violation(t, prop, test, "no-retry-after-timeout", sc, "%+v: the hedged branch's first try was ended by the Timeout and retries remained, yet it made %d tries (primary %d); returned (%d,%v)", sc, hedgeTries, primaryTries, v, err)
+			}
+			if v != 9 || err != nil {
+				harness.Violation(t, prop, test, "no-retry-after-timeout", sc, "%+v: returned (%d,%v); the hedged branch's second try succeeds", sc, v, err)
+			}
+		}
+		b, _ := json.Marshal(sc)
+		st.Case(string(b), hedgeTries >= 1, fmt.Sprintf("hedge-started=%v", hedgeTries >= 1))
 		st.Sample(string(b), func() any { return sc })
 	})
 }
